@@ -5,6 +5,7 @@ CONSTANTS
   SharedDefault = TRUE
   AliasInput = FALSE
   LeakyObserver = FALSE
+  AliasResult = FALSE
 INVARIANT Independent
 INVARIANT Deterministic
 INVARIANT FreshDefaults
